@@ -46,6 +46,9 @@ pub struct Scn {
     pub preload: bool,
     pub autorun: u32,
     pub events: Vec<Ev>,
+    /// initial machine configuration the session is started with (--fc --fd --fe --ff --di1 --j1)
+    #[serde(default)]
+    pub init: [u8; 6],
 }
 
 fn v(oracle: &str, i: usize, d: String) -> Violation {
@@ -356,6 +359,22 @@ fn sandbox() -> &'static std::path::PathBuf {
         }
         long.push_str("LOOPX:\n    JR LOOPX\n    .DB 1, 2, 3, 0x04, 0b101\n    .DW 0x1234, 65535\n");
         std::fs::write(p.join("long.asm"), long).expect("sandbox file");
+        // lines whose comment / label part holds multi-byte characters at every column offset
+        let mut uml = String::from("#! mrasm\n");
+        for i in 0..40 {
+            let pad = " ".repeat(i % 13);
+            uml.push_str(&format!("    INC R{}{} ; Überlauf prüfen → größer als ä{}ö{}ü ß€ 漢字 {}\n", i % 3, pad, i, i, "é".repeat(i % 9)));
+        }
+        uml.push_str("    STOP\n");
+        std::fs::write(p.join("umlaut-lines.asm"), uml).expect("sandbox file");
+        // a source whose faulty line is 1500 characters long (very tall / wide error notification)
+        let mut huge = String::from("#! mrasm\n    INC R0\n    FROB ");
+        huge.push_str(&"x".repeat(1500));
+        huge.push('\n');
+        std::fs::write(p.join("verybad.asm"), huge).expect("sandbox file");
+        // a program whose path is longer than the info pane is wide
+        let (src, _) = textgen::program(&mut rng);
+        std::fs::write(p.join("progs/sub/a-rather-long-file-name-for-the-info-pane-of-the-sidebar.asm"), src).expect("sandbox file");
         std::fs::write(p.join("bad.asm"), textgen::broken_program(&mut rng)).expect("sandbox file");
         std::fs::write(p.join("nonutf8.asm"), [0x23u8, 0x21, 0x20, 0xFF, 0xFE, 0x0A]).expect("sandbox file");
         std::env::set_current_dir(&p).expect("chdir sandbox");
@@ -363,7 +382,7 @@ fn sandbox() -> &'static std::path::PathBuf {
     })
 }
 
-pub const LOAD_TARGETS: [&str; 11] = ["long.asm", "good.asm", "progs/a.asm", "progs/b.asm", "progs/sub/c.asm", "with space.asm", "ümlaut.asm", "bad.asm", "nonutf8.asm", "missing.asm", "progs"];
+pub const LOAD_TARGETS: [&str; 14] = ["umlaut-lines.asm", "verybad.asm", "progs/sub/a-rather-long-file-name-for-the-info-pane-of-the-sidebar.asm", "long.asm", "good.asm", "progs/a.asm", "progs/b.asm", "progs/sub/c.asm", "with space.asm", "ümlaut.asm", "bad.asm", "nonutf8.asm", "missing.asm", "progs"];
 
 fn key_of(name: &str) -> Option<KeyCode> {
     Some(match name {
@@ -512,7 +531,8 @@ fn run(scn: &Scn, ctx: &mut Ctx) -> Result<(), Violation> {
     // leftovers of an earlier (panicked) run on this worker thread
     let mut drain = Events::new();
     while drain.next().is_some() {}
-    let args = InteractiveArgs { program: if scn.preload { Some(if scn.autorun % 2 == 0 { "long.asm" } else { "good.asm" }.into()) } else { None }, init: InitialMachineConfiguration::default() };
+    let init = InitialMachineConfiguration { fc: scn.init[0], fd: scn.init[1], fe: scn.init[2], ff: scn.init[3], di1: scn.init[4], j1: scn.init[5] & 1 != 0, ..InitialMachineConfiguration::default() };
+    let args = InteractiveArgs { program: if scn.preload { Some(if scn.autorun % 2 == 0 { "long.asm" } else { "good.asm" }.into()) } else { None }, init };
     let tui = guard(|| Tui::new(&args)).map_err(|(l, m)| v("panic", 0, format!("Tui::new: panic at {}: {}", l, m)))?.map_err(|e| v("harness", 0, format!("Tui::new: {}", e)))?;
     let term = Session::new_term(scn.w, scn.h).map_err(|e| v("harness", 0, e))?;
     let mut s = Session { tui, term, w: scn.w, h: scn.h, autorun: scn.autorun, quit: false };
@@ -946,7 +966,8 @@ impl Check for C17 {
         if rng.chance(1, 6) {
             events.push(if rng.bool() { Ev::Ctrl('c') } else { Ev::Line("quit".into()) });
         }
-        Scn { w, h, preload: rng.chance(1, 3), autorun: *rng.pick(&[0u32, 1, 7, 100, 100, 1000, 307_200 / 24]), events }
+        let init = if rng.chance(1, 3) { [rng.u8(), rng.u8(), rng.u8(), rng.u8(), rng.u8(), rng.u8()] } else { [0; 6] };
+        Scn { w, h, preload: rng.chance(1, 3), autorun: *rng.pick(&[0u32, 1, 7, 100, 100, 1000, 307_200 / 24]), events, init }
     }
     fn execute(&self, scn: &Scn, ctx: &mut Ctx) -> Result<(), Violation> {
         run(scn, ctx)
@@ -1001,6 +1022,11 @@ impl Check for C17 {
         if scn.autorun != 0 {
             let mut c = scn.clone();
             c.autorun = 0;
+            out.push(c);
+        }
+        if scn.init != [0; 6] {
+            let mut c = scn.clone();
+            c.init = [0; 6];
             out.push(c);
         }
         if (scn.w, scn.h) != (100, 40) {
